@@ -183,26 +183,31 @@ def failStage (c : Cfg) (s : St) : St :=
 /-- `_payload_handler`: new state and the returned progress. -/
 def payloadHandler (s : St) : St × Progress :=
   if s.exfiltrate then
-    let s1 := { s with chosen := { kind := .exfiltrate, host := s.host }, exfiltrate := false }
-    if s1.corrupt then (s1, .inProgress) else (s1, .finished)
+    ({ s with chosen := { kind := .exfiltrate, host := s.host }, exfiltrate := false },
+     if s.corrupt then .inProgress else .finished)
   else if s.corrupt then
     ({ s with chosen := { kind := .ransomwareLaunch, host := s.host }, corrupt := false }, .finished)
   else (s, .finished)
 
+/-- `if self.current_stage_progress == FINISHED: self._progress_kill_chain()`. -/
+def progressIfFinished (s : St) : St := if s.prog = .finished then progress s else s
+
+/-- first `if` of `_payload`: continue a payload in progress. -/
+def payloadContinue (s : St) : St :=
+  if s.prog = .inProgress then { (payloadHandler s).1 with prog := (payloadHandler s).2 } else s
+
+/-- second `if` of `_payload`: probability trial on entering the stage. -/
+def payloadEnter (c : Cfg) (i : In) (s : St) : St :=
+  if s.prog = .pending then
+    if trial c.pPayload i.u then
+      { s with host := .c2server, chosen := { kind := .ransomwareConfigure, host := .c2server, tgt := some .target },
+               prog := .inProgress }
+    else failStage c { s with chosen := Act.nothing }
+  else s
+
 /-- `_payload`. -/
 def payload (c : Cfg) (i : In) (s : St) : St :=
-  if s.cur ≠ .payload then s else
-  let s1 := if s.prog = .inProgress then
-      let (s', p) := payloadHandler s
-      { s' with prog := p }
-    else s
-  let s2 := if s1.prog = .pending then
-      if trial c.pPayload i.u then
-        { s1 with host := .c2server, chosen := { kind := .ransomwareConfigure, host := .c2server, tgt := some .target },
-                  prog := .inProgress }
-      else failStage c { s1 with chosen := Act.nothing }
-    else s1
-  if s2.prog = .finished then progress s2 else s2
+  if s.cur ≠ .payload then s else progressIfFinished (payloadEnter c i (payloadContinue s))
 
 /-- `_c2c`. -/
 def c2c (c : Cfg) (i : In) (s : St) : St :=
@@ -220,12 +225,13 @@ def c2c (c : Cfg) (i : In) (s : St) : St :=
 /-- `_update_next_scan_target(scan_target)`; `empty` = `scan_target == []`. -/
 def updateNextScanTarget (c : Cfg) (i : In) (empty : Bool) (s : St) : St :=
   if s.lastScanType = .recon ∨ empty then
-    let s1 := { s with networksScanned := s.networksScanned + 1 }
-    if s1.networksScanned < c.nAddr then { s1 with nextTarget := .addr s1.networksScanned }
-    else if s1.targetFound then s1
+    if s.networksScanned + 1 < c.nAddr then
+      { s with networksScanned := s.networksScanned + 1, nextTarget := .addr (s.networksScanned + 1) }
+    else if s.targetFound then { s with networksScanned := s.networksScanned + 1 }
     else if c.repeatScan then
-      if i.dScan < c.nAddr then { s1 with networksScanned := 0, nextTarget := .addr i.dScan } else s1.raise
-    else s1
+      if i.dScan < c.nAddr then { s with networksScanned := 0, nextTarget := .addr i.dScan }
+      else { s with networksScanned := s.networksScanned + 1, err := true }
+    else { s with networksScanned := s.networksScanned + 1 }
   else if s.lastScanType = .ping then { s with nextTarget := .hosts }
   else s
 
@@ -249,12 +255,12 @@ def scanLogic (s : St) : St × ScanType :=
 
 /-- `_scan_action_handler(scan_type)`. -/
 def scanAction (ty : ScanType) (s : St) : St :=
-  let s1 := match ty with
-    | .ping => { s with chosen := { kind := .pingScan, host := s.host, tgt := some s.nextTarget } }
-    | .port => { s with nextTarget := .target, chosen := { kind := .portScan, host := s.host, tgt := some .target } }
-    | .recon => { s with chosen := { kind := .reconScan, host := s.host, tgt := some s.nextTarget } }
-    | _ => { s with cur := .failed, chosen := Act.nothing }
-  { s1 with lastScanType := ty }
+  match ty with
+  | .ping => { s with chosen := { kind := .pingScan, host := s.host, tgt := some s.nextTarget }, lastScanType := ty }
+  | .port => { s with nextTarget := .target, chosen := { kind := .portScan, host := s.host, tgt := some .target },
+                      lastScanType := ty }
+  | .recon => { s with chosen := { kind := .reconScan, host := s.host, tgt := some s.nextTarget }, lastScanType := ty }
+  | _ => { s with cur := .failed, chosen := Act.nothing, lastScanType := ty }
 
 /-- `_scan_progress_handler`. -/
 def scanProgress (s : St) : St × Progress :=
@@ -263,6 +269,16 @@ def scanProgress (s : St) : St × Progress :=
   else ({ s with scansComplete := s.scansComplete + 1 }, .inProgress)
 
 /-- `_scan_handler` (with `_scan_setup_handler` inlined). -/
+def scanMark (prev : Hist) (s : St) : St :=
+  if prev.kind = .doNothing then { s with cur := .failed } else s      -- "do-nothing Caught whilst in scan_handler"
+
+def scanAbsorb (c : Cfg) (i : In) (prev : Hist) (s : St) : St :=
+  if prev.resp.ok then scanResponseHandler c i prev.resp s else s
+
+def scanDecide (c : Cfg) (s : St) : St × Progress :=
+  if scanFailure c s then (failStage c { s with chosen := Act.nothing }, .pending)
+  else scanProgress (scanAction (scanLogic s).2 (scanLogic s).1)
+
 def scanHandler (c : Cfg) (i : In) (s : St) : St × Progress :=
   match s.lastScanTs.getLast? with
   | none => (s.raise, .pending)                                   -- pop from empty list
@@ -270,14 +286,7 @@ def scanHandler (c : Cfg) (i : In) (s : St) : St × Progress :=
     match pyIndex s.hist ts with
     | none => (s.raise, .pending)
     | some prev =>
-      let s1 := { s with lastScanTs := s.lastScanTs.dropLast ++ [s.curT] }
-      let s2 := if prev.kind = .doNothing then { s1 with cur := .failed } else s1
-      let s3 := if prev.resp.ok then scanResponseHandler c i prev.resp s2 else s2
-      if scanFailure c s3 then
-        (failStage c { s3 with chosen := Act.nothing }, .pending)
-      else
-        let (s4, ty) := scanLogic s3
-        scanProgress (scanAction ty s4)
+      scanDecide c (scanAbsorb c i prev (scanMark prev { s with lastScanTs := s.lastScanTs.dropLast ++ [s.curT] }))
 
 /-- `_propagate_reset`. -/
 def propagateReset (s : St) : St :=
@@ -285,16 +294,18 @@ def propagateReset (s : St) : St :=
            targetFound := false, targetPort := .unknown, liveHostsEmpty := false, nextTarget := .addr 0 }
 
 /-- `_propagate`. -/
+def propagatePrep (s : St) : St :=
+  if s.prog = .pending then propagateReset { s with host := .start } else s
+
+def propagateFirstScan (s : St) : St :=
+  { s with chosen := { kind := .pingScan, host := s.host, tgt := some s.nextTarget },
+           scansComplete := 1, lastScanTs := s.lastScanTs ++ [s.curT], lastScanType := .ping, prog := .inProgress }
+
 def propagate (c : Cfg) (i : In) (s : St) : St :=
   if s.cur ≠ .propagate then s else
   if s.prog = .inProgress then
-    let (s1, p) := scanHandler c i s
-    let s2 := { s1 with prog := p }
-    if p = .finished then progress s2 else s2
-  else if trial c.pPropagate i.u then
-    let s1 := if s.prog = .pending then propagateReset { s with host := .start } else s
-    { s1 with chosen := { kind := .pingScan, host := s1.host, tgt := some s1.nextTarget },
-              scansComplete := 1, lastScanTs := s1.lastScanTs ++ [s1.curT], lastScanType := .ping, prog := .inProgress }
+    progressIfFinished { (scanHandler c i s).1 with prog := (scanHandler c i s).2 }
+  else if trial c.pPropagate i.u then propagateFirstScan (propagatePrep s)
   else failStage c { s with chosen := Act.nothing }
 
 /-- `_activate`. -/
@@ -308,15 +319,15 @@ def install (s : St) : St :=
   progress { s with host := .start, chosen := { kind := .fileAccess, host := .start } }
 
 /-- `_download`. -/
+def downloadAct (s : St) : St :=
+  if s.prog = .pending then
+    { s with host := .start, chosen := { kind := .folderCreate, host := .start }, prog := .inProgress }
+  else if s.prog = .inProgress then
+    { s with chosen := { kind := .fileCreate, host := s.host }, prog := .finished }
+  else s
+
 def download (s : St) : St :=
-  if s.cur ≠ .download then s else
-  let s1 :=
-    if s.prog = .pending then
-      { s with host := .start, chosen := { kind := .folderCreate, host := .start }, prog := .inProgress }
-    else if s.prog = .inProgress then
-      { s with chosen := { kind := .fileCreate, host := s.host }, prog := .finished }
-    else s
-  if s1.prog = .finished then progress s1 else s1
+  if s.cur ≠ .download then s else progressIfFinished (downloadAct s)
 
 /-- `_tap_start`. -/
 def tapStart (s : St) : St :=
@@ -332,25 +343,31 @@ def bodies (c : Cfg) (i : In) (s : St) : St :=
 /-- Does `get_action(t)` get past its first guard? -/
 def executes (s : St) (t : Int) : Bool := ! (decide (t < s.nextExec) || s.concluded)
 
+/-- `_tap_return_handler` on the history item `h`: FAILED when the response is not a success and stages are not repeated. -/
+def returnHandler (c : Cfg) (h : Hist) (s : St) : St :=
+  if ¬ h.resp.ok ∧ ¬ c.repeatStages then { s with cur := .failed } else s
+
+/-- Does `get_action` go on to the stage methods (after `_tap_return_handler` has run)? -/
+def passes (c : Cfg) (h : Hist) (s : St) : Bool :=
+  h.resp.ok || s.cur == .propagate || (s.cur == .payload && s.prog == .inProgress && c.continueOnFailedExfil)
+
+/-- the branch that repeats the previously chosen action -/
+def failPath (c : Cfg) (s : St) (t : Int) (i : In) : St :=
+  setNext c { (outcomeHandler c (setNext c s (t + c.frequency) i.d1)) with curT := t } (t + c.frequency) i.d2
+
+def mainPath (c : Cfg) (s : St) (t : Int) (i : In) : St :=
+  bodies c i (outcomeHandler c (setNext c { s with curT := t } (t + c.frequency) i.d1))
+
 /-- `TAP001.get_action(obs, t)`: new state and returned action. -/
 def getAction (c : Cfg) (s : St) (t : Int) (i : In) : St × Act :=
   if ¬ executes s t then (s, Act.nothing) else
   match pyIndex s.hist s.curT with
   | none => (s.raise, Act.nothing)
   | some h =>
-    -- `_tap_return_handler`
-    let s1 := if ¬ h.resp.ok ∧ ¬ c.repeatStages then { s with cur := .failed } else s
-    let pass := h.resp.ok ∨ s1.cur = .propagate ∨
-                (s1.cur = .payload ∧ s1.prog = .inProgress ∧ c.continueOnFailedExfil)
-    if ¬ pass then
-      let s2 := setNext c s1 (t + c.frequency) i.d1
-      let s3 := outcomeHandler c s2
-      let s4 := setNext c { s3 with curT := t } (t + c.frequency) i.d2
-      (s4, s4.chosen)
+    if passes c h (returnHandler c h s) then
+      (mainPath c (returnHandler c h s) t i, (mainPath c (returnHandler c h s) t i).chosen)
     else
-      let s2 := setNext c { s1 with curT := t } (t + c.frequency) i.d1
-      let s3 := bodies c i (outcomeHandler c s2)
-      (s3, s3.chosen)
+      (failPath c (returnHandler c h s) t i, (failPath c (returnHandler c h s) t i).chosen)
 
 inductive Out | act (a : Act) | raised
 deriving DecidableEq, Repr
@@ -358,9 +375,10 @@ deriving DecidableEq, Repr
 /-- One tick of the game for this agent: `get_action(t)`, then the response is appended to `history`. -/
 def step (c : Cfg) (s : St) (t : Int) (i : In) : St × Out :=
   if s.dead then (s, .raised) else
-  let (s', a) := getAction c s t i
-  if s'.err then ({ s with dead := true }, .raised)
-  else ({ s' with hist := s'.hist ++ [{ kind := a.kind, resp := i.resp }] }, .act a)
+  if (getAction c s t i).1.err then ({ s with dead := true }, .raised)
+  else ({ (getAction c s t i).1 with
+            hist := (getAction c s t i).1.hist ++ [{ kind := (getAction c s t i).2.kind, resp := i.resp }] },
+        .act (getAction c s t i).2)
 
 end Tap1
 
@@ -531,46 +549,55 @@ def popAcct (q : List Nat) : Option Nat × List Nat :=
   | h :: r => (some h, r)
 
 /-- `_manipulation`. -/
+def manipBegin (s : St) : St := if s.prog = .pending then { s with prog := .inProgress } else s
+
+/-- The account change to work on (`_next_account_change`, else the head of the list) and the list that remains;
+`none` when there is nothing left to do. -/
+def manipPick (s : St) : Option (Nat × List Nat) :=
+  match s.nextAcct, s.acctQueue with
+  | some h, q => some (h, q)
+  | none, h :: r => some (h, r)
+  | none, [] => none
+
+/-- One password-change action (local, or remote login first, or remote command). -/
+def manipAct (c : Cfg) (s : St) : St :=
+  match manipPick s with
+  | none => s
+  | some (h, q1) =>
+    if h = c.startNode then
+      if (s.creds.get c.startNode).isNone then s.raise else
+      { s with chosen := { kind := .changePwLocal, host := c.startNode }, nextAcct := (popAcct q1).1, acctQueue := (popAcct q1).2,
+               chgPwTarget := some c.startNode }
+    else if s.session ≠ some h then
+      if s.creds.get h ≠ some true then s.raise else
+      { s with sshTarget := some h, chosen := { kind := .remoteLogin, host := h }, nextAcct := some h, acctQueue := q1 }
+    else
+      if s.creds.get h ≠ some true then s.raise else
+      { s with chosen := { kind := .remoteChangePw, host := h }, nextAcct := (popAcct q1).1, acctQueue := (popAcct q1).2,
+               chgPwTarget := some h }
+
+def manipFinish (s : St) : St := if s.nextAcct.isNone then progress s else s
+
 def manipulation (c : Cfg) (i : In) (s : St) : St :=
   if s.cur ≠ .manipulation then s else
-  if trial c.pManipulation i.u then
-    let s0 := if s.prog = .pending then { s with prog := .inProgress } else s
-    let s1 :=
-      match s0.nextAcct, s0.acctQueue with
-      | none, [] => s0
-      | na, q =>
-        let (h, q1) := match na, q with
-          | some h, q => (h, q)
-          | none, h :: r => (h, r)
-          | none, [] => (0, [])           -- excluded by the first alternative
-        if h = c.startNode then
-          if (s0.creds.get c.startNode).isNone then s0.raise else
-          let (na', q2) := popAcct q1
-          { s0 with chosen := { kind := .changePwLocal, host := c.startNode }, nextAcct := na', acctQueue := q2,
-                    chgPwTarget := some c.startNode }
-        else if s0.session ≠ some h then
-          if s0.creds.get h ≠ some true then s0.raise else
-          { s0 with sshTarget := some h, chosen := { kind := .remoteLogin, host := h }, nextAcct := some h, acctQueue := q1 }
-        else
-          if s0.creds.get h ≠ some true then s0.raise else
-          let (na', q2) := popAcct q1
-          { s0 with chosen := { kind := .remoteChangePw, host := h }, nextAcct := na', acctQueue := q2,
-                    chgPwTarget := some h }
-    if s1.nextAcct.isNone then progress s1 else s1
+  if trial c.pManipulation i.u then manipFinish (manipAct c (manipBegin s))
   else failStage c { s with chosen := Act.nothing }
 
 /-- `_exploit` (its probability trial is dead code: the guard compares the stage with `KillChainStageProgress.PENDING`). -/
+def exploitAct (r : Nat) (s : St) : St :=
+  if s.session ≠ some r then { s with sshTarget := some r, chosen := { kind := .remoteLogin, host := r } }
+  else { s with chosen := { kind := .remoteAcl, host := r }, curAcl := s.curAcl + 1 }
+
+def exploitFinish (s : St) : St :=
+  if s.curAcl = s.numAcls then progress { s with curAcl := 0 } else s
+
 def exploit (c : Cfg) (s : St) : St :=
   if s.cur ≠ .exploit then s else
-  let s0 := { s with numAcls := c.acls.length }
-  match c.acls[s0.curAcl]? with
-  | none => s0.raise
+  match c.acls[s.curAcl]? with
+  | none => s.raise
   | some r =>
-    if s0.creds.get r ≠ some true then s0.raise else
-    let s1 :=
-      if s0.session ≠ some r then { s0 with sshTarget := some r, chosen := { kind := .remoteLogin, host := r } }
-      else { s0 with chosen := { kind := .remoteAcl, host := r }, curAcl := s0.curAcl + 1 }
-    if s1.curAcl = s1.numAcls then progress { s1 with curAcl := 0 } else s1
+    if s.creds.get r ≠ some true then s.raise
+    else exploitFinish (exploitAct r { s with numAcls := c.acls.length })
 
 /-- `_access`. -/
 def access (c : Cfg) (i : In) (s : St) : St :=
@@ -601,32 +628,46 @@ def bodies (c : Cfg) (i : In) (s : St) : St :=
 
 def executes (s : St) (t : Int) : Bool := ! (decide (t < s.nextExec) || s.concluded)
 
-/-- `TAP003.get_action(obs, t)`. -/
-def getAction (c : Cfg) (s : St) (t : Int) (i : In) : St × Act :=
-  let s := handleChangePw c (handleLogin s)
+def returnHandler (c : Cfg) (h : Hist) (s : St) : St :=
+  if ¬ h.resp.ok ∧ ¬ c.repeatStages then { s with cur := .failed } else s
+
+/-- after a failed response only PLANNING goes on to the stage methods -/
+def passes (h : Hist) (s : St) : Bool := h.resp.ok || s.cur == .planning
+
+def failPath (c : Cfg) (s : St) (t : Int) (i : In) : St :=
+  outcomeHandler c (setNext c { s with curT := t } (t + c.frequency) i.d1)
+
+/-- the PLANNING exception reads `response.data["reason"]` -/
+def reasonCheck (h : Hist) (s : St) : St := if ¬ h.resp.ok ∧ ¬ h.resp.hasReason then s.raise else s
+
+def mainPath (c : Cfg) (s : St) (t : Int) (i : In) : St :=
+  bodies c i (outcomeHandler c (setNext c { s with curT := t } (t + c.frequency) i.d1))
+
+/-- the two response handlers that run on every call, before the schedule guard -/
+def preGuardHandlers (c : Cfg) (s : St) : St := handleChangePw c (handleLogin s)
+
+/-- `get_action` after the pre-guard handlers. -/
+def getActionCore (c : Cfg) (s : St) (t : Int) (i : In) : St × Act :=
   if ¬ executes s t then (s, Act.nothing) else
   match pyIndex s.hist s.curT with
   | none => (s.raise, Act.nothing)
   | some h =>
-    let s1 := if ¬ h.resp.ok ∧ ¬ c.repeatStages then { s with cur := .failed } else s
-    if ¬ h.resp.ok ∧ s1.cur ≠ .planning then
-      let s2 := setNext c { s1 with curT := t } (t + c.frequency) i.d1
-      let s3 := outcomeHandler c s2
-      (s3, s3.chosen)
+    if passes h (returnHandler c h s) then
+      (mainPath c (reasonCheck h (returnHandler c h s)) t i, (mainPath c (reasonCheck h (returnHandler c h s)) t i).chosen)
     else
-      let s1 := if ¬ h.resp.ok ∧ ¬ h.resp.hasReason then s1.raise else s1
-      let s2 := setNext c { s1 with curT := t } (t + c.frequency) i.d1
-      let s3 := bodies c i (outcomeHandler c s2)
-      (s3, s3.chosen)
+      (failPath c (returnHandler c h s) t i, (failPath c (returnHandler c h s) t i).chosen)
+
+def getAction (c : Cfg) (s : St) (t : Int) (i : In) : St × Act := getActionCore c (preGuardHandlers c s) t i
 
 inductive Out | act (a : Act) | raised
 deriving DecidableEq, Repr
 
 def step (c : Cfg) (s : St) (t : Int) (i : In) : St × Out :=
   if s.dead then (s, .raised) else
-  let (s', a) := getAction c s t i
-  if s'.err then ({ s with dead := true }, .raised)
-  else ({ s' with hist := s'.hist ++ [{ kind := a.kind, resp := i.resp }] }, .act a)
+  if (getAction c s t i).1.err then ({ s with dead := true }, .raised)
+  else ({ (getAction c s t i).1 with
+            hist := (getAction c s t i).1.hist ++ [{ kind := (getAction c s t i).2.kind, resp := i.resp }] },
+        .act (getAction c s t i).2)
 
 end Tap3
 end Primaite.Agents
